@@ -97,12 +97,12 @@ pub fn candidates(prop: &str) -> Vec<Value> {
             }}}
         }
         "C14" => {
-            for g in ["G1", "G2"] { for kind in ["decrypt", "homomorphic", "proof_ok", "tamper_c1", "tamper_c2", "tamper_mp", "tamper_bp", "tamper_ch", "wrong_pk", "wrong_sk", "identity_pk"] {
+            for g in ["G1", "G2"] { for kind in ["decrypt", "homomorphic", "homomorphic_ops", "homomorphic_k16", "key_from_shares", "proof_ok", "tamper_c1", "tamper_c2", "tamper_mp", "tamper_bp", "tamper_ch", "wrong_pk", "wrong_sk", "identity_pk"] {
                 v.push(json!({"call": "elgamal", "group": g, "kind": kind}));
             }}
         }
         "C08" => {
-            for g in ["G1", "G2"] { for s in [SignatureSchemes::Basic, SignatureSchemes::ProofOfPossession] { for (t, n) in [(2usize, 2usize), (2, 3), (3, 5), (5, 7)] { for kind in ["recombine", "partial_verify", "other_share", "too_few", "duplicate", "single", "empty", "mixed", "bad_params"] {
+            for g in ["G1", "G2"] { for s in [SignatureSchemes::Basic, SignatureSchemes::ProofOfPossession] { for (t, n) in [(2usize, 2usize), (2, 3), (3, 5), (4, 5), (5, 7)] { for kind in ["recombine", "partial_verify", "other_share", "too_few", "duplicate", "duplicate_any", "zero_id", "single", "empty", "mixed", "subsets", "bad_params"] {
                 v.push(json!({"call": "shares", "group": g, "scheme": scheme_name(s), "t": t, "n": n, "kind": kind}));
             }}}}
         }
@@ -543,6 +543,34 @@ fn elgamal<C: BlsSignatureImpl + PartialEq + Copy>(c: &Value, keys: &[SecretKey<
     match c["kind"].as_str().unwrap() {
         "decrypt" => { for m in [m1, m2, &keys[4]] { let ct = pk.encrypt_key_el_gamal(m).ok()?; if <C as BlsElGamal>::decrypt(sk.0, ct.c1, ct.c2) != g * m.0 { return Some("decrypt(encrypt(m)) != m * generator".into()); } } None }
         "homomorphic" => { let a = pk.encrypt_key_el_gamal(m1).ok()?; let b = pk.encrypt_key_el_gamal(m2).ok()?; let s = a + b; if <C as BlsElGamal>::decrypt(sk.0, s.c1, s.c2) != g * (m1.0 + m2.0) { Some("sum of ciphertexts does not decrypt to the sum".into()) } else { None } }
+        "homomorphic_ops" => {
+            // every operator form must give the component-wise sum
+            let a = pk.encrypt_key_el_gamal(m1).ok()?; let b = pk.encrypt_key_el_gamal(m2).ok()?;
+            let want = a + b;
+            if want.c1 != a.c1 + b.c1 || want.c2 != a.c2 + b.c2 { return Some("a + b is not the component-wise sum".into()); }
+            if &a + &b != want { return Some("&a + &b differs from a + b".into()); }
+            if a + &b != want { return Some("a + &b differs from a + b".into()); }
+            if &a + b != want { return Some("&a + b differs from a + b".into()); }
+            let mut x = a; x += b; if x != want { return Some("a += b differs from a + b".into()); }
+            let mut y = a; y += &b; if y != want { return Some("a += &b differs from a + b".into()); }
+            if want.decrypt(sk) != g * (m1.0 + m2.0) { return Some("ElGamalCiphertext::decrypt of the sum is not the sum of the plaintexts".into()); }
+            None
+        }
+        "homomorphic_k16" => {
+            let mut acc = pk.encrypt_key_el_gamal(m1).ok()?; let mut sum = m1.0;
+            for i in 0..15 { let m = &keys[i % keys.len()]; let ct = pk.encrypt_key_el_gamal(m).ok()?; if i % 2 == 0 { acc += &ct; } else { acc = &acc + &ct; } sum += m.0; }
+            if <C as BlsElGamal>::decrypt(sk.0, acc.c1, acc.c2) != g * sum { Some("sum of 16 ciphertexts does not decrypt to the sum".into()) } else { None }
+        }
+        "key_from_shares" => {
+            use rand_core::SeedableRng;
+            let ct = pk.encrypt_key_el_gamal(m1).ok()?;
+            let sh = sk.split_with_rng(2, 3, rand_chacha::ChaCha20Rng::from_seed([5u8; 32])).ok()?;
+            let ds: Vec<ElGamalDecryptionShare<C>> = sh.iter().map(|s| <C as BlsSignatureCore>::public_key_share_with_generator(&s.0, ct.c1).map(ElGamalDecryptionShare)).collect::<Result<Vec<_>, _>>().ok()?;
+            for sub in [&ds[..2], &ds[1..], &ds[..]] {
+                match ElGamalDecryptionKey::<C>::from_shares(sub) { Ok(k) => if k.decrypt(&ct) != g * m1.0 { return Some("decryption key recombined from shares decrypts to another value".into()); }, Err(e) => return Some(format!("ElGamalDecryptionKey::from_shares failed: {}", e)) }
+            }
+            None
+        }
         kind => {
             let p = match pk.encrypt_key_el_gamal_with_proof(m1) { Ok(p) => p, Err(e) => return Some(format!("proof generation failed: {}", e)) };
             let mut t = p;
@@ -597,6 +625,42 @@ fn shares<C: BlsSignatureImpl + PartialEq + Copy>(c: &Value, keys: &[SecretKey<C
         "duplicate" => { let d = vec![ps[0], ps[0]]; if Signature::<C>::from_shares(&d).is_ok() { Some("duplicated share accepted".into()) } else { None } }
         "single" => if Signature::<C>::from_shares(&ps[..1]).is_ok() { Some("single share accepted".into()) } else { None },
         "empty" => { let r = crate::guarded(|| Signature::<C>::from_shares(&[]).is_ok()); match r { Ok(true) => Some("empty share set accepted".into()), Ok(false) => None, Err(p) => Some(format!("empty share set panicked: {}", p)) } }
-        _ => { let other = if s == SignatureSchemes::Basic { SignatureSchemes::ProofOfPossession } else { SignatureSchemes::Basic }; let mut x = ps.clone(); x[n - 1] = sh[n - 1].sign(other, &m).unwrap(); if Signature::<C>::from_shares(&x).is_ok() { Some("mixed-scheme shares accepted".into()) } else { None } }
+        "zero_id" => {
+            // a share whose identifier byte is zero, in every position
+            for i in 0..n { let mut raw: Vec<u8> = Vec::from(&sh[i]); raw[0] = 0; if let Ok(z) = SecretKeyShare::<C>::try_from(raw.as_slice()) { let mut x = sh.clone(); x[i] = z; if SecretKey::<C>::combine(&x).is_ok() { return Some(format!("zero identifier at position {} accepted", i)); } } }
+            None
+        }
+        "duplicate_any" => {
+            for i in 0..n { for j in 0..n { if i != j { let mut x = ps.clone(); x[j] = ps[i]; if Signature::<C>::from_shares(&x).is_ok() { return Some(format!("share {} repeated at position {} accepted", i, j)); }
+                let mut y = pks.clone(); y[j] = pks[i]; if PublicKey::<C>::from_shares(&y).is_ok() { return Some(format!("public-key share {} repeated at position {} accepted", i, j)); } } } }
+            None
+        }
+        "subsets" => {
+            // every subset of every size (n <= 7): >= t recombine to the whole-key values, order-independent
+            if n > 7 { return None; }
+            for mask in 1u32..(1 << n) {
+                let idx: Vec<usize> = (0..n).filter(|i| mask & (1 << i) != 0).collect();
+                let k: Vec<SecretKeyShare<C>> = idx.iter().map(|&i| sh[i].clone()).collect();
+                let g: Vec<SignatureShare<C>> = idx.iter().rev().map(|&i| ps[i]).collect();
+                let q: Vec<PublicKeyShare<C>> = idx.iter().map(|&i| pks[i]).collect();
+                if idx.len() >= t {
+                    match SecretKey::<C>::combine(&k) { Ok(x) if x == *sk => {}, _ => return Some(format!("subset {:?} of the secret shares does not recombine to the key", idx)) }
+                    match Signature::<C>::from_shares(&g) { Ok(x) if Vec::<u8>::from(&x) == Vec::<u8>::from(&whole) => {}, _ => return Some(format!("subset {:?} of the partial signatures does not recombine to the whole-key signature", idx)) }
+                    match PublicKey::<C>::from_shares(&q) { Ok(x) if x == pk => {}, _ => return Some(format!("subset {:?} of the public-key shares does not recombine to the public key", idx)) }
+                } else if idx.len() >= 2 {
+                    if let Ok(x) = SecretKey::<C>::combine(&k) { if x == *sk { return Some(format!("subset {:?} (fewer than t) yielded the key", idx)); } }
+                    if let Ok(x) = Signature::<C>::from_shares(&g) { if x == whole { return Some(format!("subset {:?} (fewer than t) yielded the signature", idx)); } }
+                } else if Signature::<C>::from_shares(&g).is_ok() || SecretKey::<C>::combine(&k).is_ok() || PublicKey::<C>::from_shares(&q).is_ok() { return Some("a single share was accepted".into()); }
+            }
+            None
+        }
+        _ => {
+            // a share of another scheme at EVERY position of every prefix of length >= 2
+            let other = if s == SignatureSchemes::Basic { SignatureSchemes::ProofOfPossession } else { SignatureSchemes::Basic };
+            for len in 2..=n { for i in 0..len { let mut x = ps[..len].to_vec(); x[i] = sh[i].sign(other, &m).unwrap(); if Signature::<C>::from_shares(&x).is_ok() { return Some(format!("mixed-scheme shares accepted (other scheme at position {} of {})", i, len)); } } }
+            // two blocks: the scheme changes at every possible index
+            for cut in 1..n { let x: Vec<SignatureShare<C>> = (0..n).map(|i| if i < cut { ps[i] } else { sh[i].sign(other, &m).unwrap() }).collect(); if Signature::<C>::from_shares(&x).is_ok() { return Some(format!("mixed-scheme shares accepted (scheme changes at index {} of {})", cut, n)); } }
+            None
+        }
     }
 }
